@@ -9,6 +9,7 @@ from fractions import Fraction
 
 MAX_BITS = 6000
 MAX_EXP = 64
+MAX_FACT = 60   # the three bounds are raised by the evaluation check (C05), which wants exact integers of thousands of digits
 TOL_OK = Fraction(1, 10 ** 9)
 TOL_BAD = Fraction(1, 10 ** 6)
 ILL = Fraction(1, 10 ** 6)
@@ -81,7 +82,7 @@ def _ev(s, sigma):
             sg = (a.v > 0) - (a.v < 0)
             return Val(Fraction(sg), Fraction(1), False, ill)
         # factorial
-        if a.approx or a.v.denominator != 1 or a.v < 0 or a.v > 60:
+        if a.approx or a.v.denominator != 1 or a.v < 0 or a.v > MAX_FACT:
             raise Undef("factorial domain")
         r = Fraction(math.factorial(int(a.v)))
         return Val(r, r, False, a.ill)
@@ -441,8 +442,14 @@ def _mag(s, sigma, limit):
     if k == "Factorial":
         c = s[2] if s[2] is not None else s[3]
         b = _mag(c, sigma, limit) if c is not None else 1
-        if b > 7:  # argument may exceed 127
-            raise _TooBig()
+        if b > 7:  # argument may exceed 127: bound n! by n*log2(n) bits when n itself is cheap to know
+            n = _small_value(c, sigma, b)
+            if n is None or n.denominator != 1 or abs(n) > 5000:
+                raise _TooBig()
+            r = int(abs(n)) * max(1, int(abs(n)).bit_length())
+            if r > limit:
+                raise _TooBig()
+            return max(r, 800)
         return 800
     if s[2] is None or s[3] is None:
         return 1
@@ -453,14 +460,29 @@ def _mag(s, sigma, limit):
     elif k in ("Multiply", "Divide", "Equal"):
         r = a + b
     elif k == "Power":
-        if b > 12:  # |exponent| may exceed 4096
+        e = _small_value(s[3], sigma, b)
+        if e is not None and e.denominator == 1 and abs(e) <= 70000:
+            r = a * max(1, int(abs(e)))      # the exponent's actual value instead of its bit bound
+        elif b > 12:  # |exponent| may exceed 4096
             raise _TooBig()
-        r = a * (2 ** b)
+        else:
+            r = a * (2 ** b)
     else:
         r = a + b
     if r > limit:
         raise _TooBig()
     return r
+
+
+def _small_value(s, sigma, bits):
+    """exact value of a subtree whose magnitude bound is small (cheap to evaluate), else None"""
+    if bits > 64:
+        return None
+    try:
+        v = ev(s, sigma)
+    except Exception:
+        return None
+    return v.v if (not v.approx and isinstance(v.v, Fraction)) else None
 
 
 MATH_UNDEFINED = ("division by zero", "zero to a negative power", "factorial domain", "non-integer power of a non-positive base")
